@@ -98,17 +98,24 @@ class CheckComparisons(MultiFunction):
         self.nodetype[o] = "complex"
         return o
 
+    # ln, acos, asin and the Bessel functions leave the real line outside their real domain
+    # (ln(-1) = i*pi), exactly like sqrt: type them complex defensively as well.
+    ln = sqrt
+    acos = sqrt
+    asin = sqrt
+    bessel_function = sqrt
+
     def power(self, o, base, exponent):
         """Apply to power."""
         o = self.reuse_if_untouched(o, base, exponent)
-        try:
-            # Attempt to diagnose circumstances in which the result must be real.
+        # Attempt to diagnose circumstances in which the result must be real.  Only literal
+        # exponents are converted: float() of a general expression evaluates it, and for an
+        # exponent containing a Coefficient/Constant/Argument Terminal.evaluate recurses for ever.
+        if isinstance(exponent, RealValue | Zero):
             exponent = float(exponent)
             if self.nodetype[base] == "real" and int(exponent) == exponent:
                 self.nodetype[o] = "real"
                 return o
-        except TypeError:
-            pass
 
         self.nodetype[o] = "complex"
         return o
